@@ -1049,6 +1049,7 @@ def breaking_edits(rng, src):
             t = join(body[:cut])
             out.append((t.rstrip("\n") + "\n", "cut off inside a block (with newline)"))
             out.append((t.rstrip("\n").rstrip("\r"), "cut off inside a block (no newline)"))
+            out.append((t.rstrip("\n") + rng.choice(["\n\n", "\n# c\n", "\n\n  ", "\n  \n\n", "\n#x"]), "cut off inside a block (then blank / comment lines)"))
     out.append((src.rstrip("\r\n") + "\nend loop\n", "end at top level"))
     # punctuation
     for ch, what in ((";", "missing ;"), (")", "missing )"), (",", "missing ,")):
@@ -1071,6 +1072,15 @@ def breaking_edits(rng, src):
             out.append((join(body[:i] + [" ".join(first[:-1])] + body[i + 1:]), "row with one entry too few"))
         out.append((join(body[:i] + [body[i].split("#")[0] + " 9223372036854775808"[0:0]] + ["let big = 9223372036854775808;"] + body[i + 1:]), "literal that does not fit in 64 bits"))
         out.append((join(body[:i] + ["let w = 1; bits(65,1)"] + body[i + 1:]), "statement not followed by a line break / bits width 65"))
+        ncols = len(lines[hdr_i].split())
+        big = rng.choice([65, 66, 100, 255, 256, 257, 259, 320, 512, 513, 65536, 65537, 4294967297])
+        out.append((join(body[:i] + ["bits(%d,1)" % big] + body[i + 1:]), "bits width above 64"))
+        if ncols >= 1:
+            k = rng.randrange(2, 6)
+            row = " ".join(["1"] * (ncols - 1) + ["bits(%d,5)" % k])
+            out.append((join(body[:i] + [row] + body[i + 1:]), "row whose last bits() group overflows the header"))
+            row2 = " ".join(["bits(%d,5)" % (ncols + rng.randrange(1, 4))])
+            out.append((join(body[:i] + [row2] + body[i + 1:]), "row of one bits() group wider than the header"))
     hdr = lines[hdr_i].split()
     if hdr:
         out.append(("\n".join(lines[:hdr_i] + [lines[hdr_i].rstrip("\r") + " " + hdr[0]] + lines[hdr_i + 1:]), "duplicated header name"))
